@@ -725,9 +725,15 @@ class CSSMatch(_DocumentNav):
         self,
         el: bs4.Tag,
         attr: str,
-        prefix: str | None
+        prefix: str | None,
+        pattern: re.Pattern[str] | None = None
     ) -> str | Sequence[str] | None:
-        """Match attribute name and return value if it exists."""
+        """
+        Match attribute name and return value if it exists.
+
+        `*|attr` can name several attributes of one element (the same local name in different namespaces);
+        if a value pattern is given, prefer one of them whose value matches it.
+        """
 
         value = None
         if self.supports_namespaces():
@@ -769,6 +775,8 @@ class CSSMatch(_DocumentNav):
                     continue
 
                 value = v
+                if prefix == '*' and pattern is not None and pattern.match(v if isinstance(v, str) else ' '.join(v)) is None:
+                    continue
                 break
         else:
             for k, v in self.iter_attributes(el):
@@ -805,8 +813,8 @@ class CSSMatch(_DocumentNav):
         match = True
         if attributes:
             for a in attributes:
-                temp = self.match_attribute_name(el, a.attribute, a.prefix)
                 pattern = a.xml_type_pattern if self.is_xml and a.xml_type_pattern else a.pattern
+                temp = self.match_attribute_name(el, a.attribute, a.prefix, pattern)
                 if temp is None:
                     match = False
                     break
